@@ -111,6 +111,10 @@ def c12_cases(tier, seed, focus):
                                           "mode": "C12", "focus": focus, "client": client, "compress": compress, "level": level,
                                           "maxframe": mf, "msgs": msgs, "cut": cut, "seed": rnd.randrange(1 << 30),
                                           "lenclass": "empty" if ln == 0 else "nonempty"})
+                            if mf and ln > mf and cut in (0, -1):
+                                # the same fragmented message with a ping travelling between its fragments (RFC 6455 5.4)
+                                sp = dict(cases[-1], id=cases[-1]["id"] + "-splice", splice=True, seed=rnd.randrange(1 << 30))
+                                cases.append(sp)
     return cases
 
 
